@@ -118,6 +118,48 @@ func KSparseAssign(r *Rand, v *spec.Version, k int) spec.Assign {
 	return a
 }
 
+// SparseSubsets lists every set of at most kmax optional metrics of v (as metric indexes).
+func SparseSubsets(v *spec.Version, kmax int) [][]int {
+	var opt []int
+	for m, me := range v.Metrics {
+		if !me.Mandatory {
+			opt = append(opt, m)
+		}
+	}
+	var out [][]int
+	var rec func(start int, cur []int)
+	rec = func(start int, cur []int) {
+		out = append(out, append([]int{}, cur...))
+		if len(cur) == kmax {
+			return
+		}
+		for i := start; i < len(opt); i++ {
+			rec(i+1, append(cur, opt[i]))
+		}
+	}
+	rec(0, nil)
+	return out
+}
+
+// EnumSubsetValues calls f for every combination of DEFINED values of the metrics in set,
+// on top of base (which is modified in place and restored).
+func EnumSubsetValues(v *spec.Version, base spec.Assign, set []int, f func(a spec.Assign)) {
+	var rec func(i int)
+	rec = func(i int) {
+		if i == len(set) {
+			f(base)
+			return
+		}
+		m := set[i]
+		for vi := 1; vi < len(v.Metrics[m].Values); vi++ {
+			base[m] = uint8(vi)
+			rec(i + 1)
+		}
+		base[m] = 0
+	}
+	rec(0)
+}
+
 // MixedAssign draws from a mixture that covers both "everything defined" and
 // "a few specific metrics defined, the rest not defined" contexts: 30% uniform,
 // 25% sparse (1-3 in 4), 15% very sparse (1 in 8), 30% exactly k in 1..4 defined.
